@@ -199,6 +199,11 @@ func ParseSliceHeader(nalu []byte, spsMap map[uint32]*SPS, ppsMap map[uint32]*PP
 			sh.NumRefIdxL0ActiveMinus1 = uint32(pps.NumRefIdxI0DefaultActiveMinus1)
 			sh.NumRefIdxL1ActiveMinus1 = uint32(pps.NumRefIdxI1DefaultActiveMinus1)
 		}
+		// values shall be in the range of 0 to 31, inclusive
+		if sh.NumRefIdxL0ActiveMinus1 > 31 || sh.NumRefIdxL1ActiveMinus1 > 31 {
+			return nil, fmt.Errorf("num_ref_idx_active_minus1 too large: %d, %d",
+				sh.NumRefIdxL0ActiveMinus1, sh.NumRefIdxL1ActiveMinus1)
+		}
 	}
 
 	// ref_pic_list_modification (nal unit type != 20 or 21) Section G.3.3.3.1.1
